@@ -272,6 +272,126 @@ def c05_burst_oracle(line, res):
     return None
 
 
+
+# kind "pipeline_shared": concurrent exchanges that were handed ONE payload slice (harness/cmd/implrun/c05c.go,
+#   model Net/PipelineBuf.v plb_shared_run).  "ExchangeContext MUST NOT keep or modify m": sharing a slice is legal.
+#     <id> net=<tcp|udp> q0=<n> warm=<w> hold=<0|1> bufs=<hex>,... ex=<slice index per exchange of the burst>
+#   result  n= ok= bad= err= ids=<sorted ids read by the server> per=<datagrams per slice tail> other= pay=<1|0 per slice>
+#           conns= viol=   (everything but viol= is schedule independent and predicted by the model)
+def _c05_query(cid, labels, qtype=1, opt=False):
+    b = bytes([cid >> 8, cid & 255, 1, 0, 0, 1, 0, 0, 0, 0, 0, 1 if opt else 0])
+    for l in labels:
+        b += bytes([len(l)]) + l
+    b += bytes([0, qtype >> 8, qtype & 255, 0, 1])
+    if opt:
+        b += bytes([0, 0, 41, 4, 208, 0, 0, 0, 0, 0, 0])      # OPT, udp size 1232, no options
+    return b
+
+
+def _c05_shared_case(rng, cid_, net, q0, warm, hold, nbuf, ex, cids=None):
+    total = warm + len(ex)
+    bufs = []
+    for i in range(nbuf):
+        if cids is not None:
+            cid = cids[i]
+        else:
+            r = rng.random()
+            if r < 0.35:
+                cid = min(65535, q0 + rng.randrange(total))      # the caller's id IS a wire id of this very burst
+            elif r < 0.5:
+                cid = rng.choice([0, 1, 65535, 666])
+            elif r < 0.6 and bufs:
+                cid = int.from_bytes(bufs[0][:2], "big")           # same caller id in two slices
+            else:
+                cid = rng.randrange(65536)
+        lab = [b"s%d" % i]
+        if rng.random() < 0.5:
+            lab.append(bytes(rng.choice(b"abcdefghijklmnopqrstuvwxyz0123456789-") for _ in range(rng.randrange(1, 40))))
+        lab.append(b"test")
+        bufs.append(_c05_query(cid, lab, qtype=rng.choice([1, 28, 16, 65]), opt=rng.random() < 0.3))
+    return "%s net=%s q0=%d warm=%d hold=%d bufs=%s ex=%s" % (
+        cid_, net, q0, warm, hold, ",".join(gens.hx(b) for b in bufs), ",".join(str(i) for i in ex))
+
+
+def c05_shared_gen(rng, tier):
+    out = []
+    reps = budget(tier, 10, 150)
+    i = 0
+    for rep in range(reps):
+        for net in ("udp", "tcp"):
+            for shape in ("one", "one_big", "groups", "mixed", "singles"):
+                if shape == "one":                     # every exchange of the burst has the same slice
+                    nbuf, ex = 1, [0] * rng.choice([2, 2, 3, 4, 8])
+                elif shape == "one_big":
+                    nbuf, ex = 1, [0] * rng.choice([16, 24, 32, 48])
+                elif shape == "groups":                # several shared slices side by side
+                    nbuf = rng.choice([2, 3, 4])
+                    ex = [rng.randrange(nbuf) for _ in range(rng.choice([4, 8, 16, 32]))]
+                elif shape == "mixed":                 # one shared slice among exchanges with slices of their own
+                    k = rng.choice([2, 3, 6])
+                    own = rng.choice([1, 2, 5])
+                    nbuf = 1 + own
+                    ex = [0] * k + list(range(1, 1 + own))
+                    rng.shuffle(ex)
+                else:                                  # control: nobody shares
+                    nbuf = rng.choice([2, 4, 8])
+                    ex = list(range(nbuf))
+                warm = rng.choice([0, 0, 1, 2]) if len(ex) >= 2 else 0
+                total = warm + len(ex)
+                r = rng.random()
+                if r < 0.6:
+                    q0 = 0
+                elif r < 0.75:
+                    q0 = 65536 - total                 # the burst uses up the id space exactly
+                elif r < 0.9:
+                    q0 = 65536 - total - rng.choice([1, 2, 9])
+                else:
+                    q0 = rng.randrange(1, 60000)
+                hold = 0 if rng.random() < 0.25 else 1
+                out.append(_c05_shared_case(rng, "sh%d" % i, net, q0, warm, hold, nbuf, ex))
+                i += 1
+    return out
+
+
+def c05_shared_oracle(line, res):
+    """the property on the run: every exchange returns a message (the server answered every query it read) with
+    the caller's id; the server read exactly the assigned ids q0..q0+n-1 once each, each in front of the tail of a
+    caller's payload, as many per payload as exchanges were called with it; the callers' octets are untouched"""
+    if not res.startswith("n="):
+        return None
+    f = gens.fields(line)
+    r = gens.fields(res)
+    if r.get("viol", "none") != "none":
+        return "shared payload: " + r["viol"]
+    n = int(r["n"])
+    if int(r["ok"]) != n:
+        return "shared payload: %s of %d exchanges returned the caller's id (bad=%s err=%s)" % (r["ok"], n, r["bad"], r["err"])
+    if "0" in r.get("pay", "").split(","):
+        return "shared payload: the caller's payload was modified"
+    if r.get("conns") == "1":
+        q0 = int(f["q0"])
+        want = "%d-%d" % (q0, q0 + n - 1) if n > 1 else "%d" % q0
+        if r.get("ids") != want:
+            return "shared payload: the server read ids %s, assigned were %s" % (r.get("ids"), want)
+    ex = [int(x) for x in f["ex"].split(",")]
+    warm = int(f["warm"])
+    cnt = [0] * len(f["bufs"].split(","))
+    for b in ex[:warm] + ex:
+        cnt[b] += 1
+    if r.get("per") != ",".join(str(c) for c in cnt) or r.get("other") != "0":
+        return "shared payload: datagrams per payload %s (other=%s), exchanges per payload %s" % (
+            r.get("per"), r.get("other"), ",".join(str(c) for c in cnt))
+    return None
+
+
+def c05_shared_classify(line, res):
+    f = gens.fields(line)
+    ex = f.get("ex", "").split(",")
+    shared = len(ex) - len(set(ex))
+    return "%s+%s+%s%s" % (f.get("net", "?"), "hold" if f.get("hold") == "1" else "free",
+                           "shared" if shared else "own", "+eol" if int(f.get("q0", "0")) >= 65000 else "")
+
+
 PROPS["C05"] = dict(
     kinds=[
         dict(name="pipeline", gen=c05_pipeline_gen, oracle=c05_pipeline_oracle, classify=c05_pipeline_classify,
@@ -282,6 +402,9 @@ PROPS["C05"] = dict(
         dict(name="pipeline_burst", gen=c05_burst_gen, oracle=c05_burst_oracle, model=False,
              classify=lambda l, r: "%s+k%s" % (gens.fields(l).get("net", "?"), gens.fields(l).get("k", "?")),
              nontrivial=lambda l, r: "viol=none" in r and "ok=0 " not in r, timeout=900),
+        dict(name="pipeline_shared", gen=c05_shared_gen, oracle=c05_shared_oracle, classify=c05_shared_classify,
+             nontrivial=lambda l, r: "viol=none" in r and len(set(gens.fields(l)["ex"].split(","))) <
+             len(gens.fields(l)["ex"].split(",")), timeout=900),
         dict(name="pipeline_conc", gen=c05_conc_gen, oracle=c05_conc_oracle, model=False,
              classify=lambda l, r: gens.fields(l).get("net", "?") + ("+eol" if gens.fields(l).get("q0", "0") != "0" else ""),
              nontrivial=lambda l, r: "viol=none" in r, timeout=1500),
@@ -292,16 +415,23 @@ PROPS["C05"] = dict(
          "Pipeline.run_history; distinct = distinct case line; non-trivial = at least one exchange returned a "
          "message. pipeline_eol: >65536 sequential exchanges on one real connection. pipeline_burst: "
          "connections preset to 65536-k (k=0..3) and bursts of >= k+2 exchanges released together through the real "
-         "transport, stale replies for ids 0/1, oracle only. pipeline_conc: concurrent non-quiescent runs judged "
+         "transport, stale replies for ids 0/1, oracle only. pipeline_shared: bursts of exchanges called with "
+         "the SAME payload slice (plus slices of their own, sequential reuse, ids near the end), all writers held "
+         "inside write together or free running, UDP and TCP framing; ids/octets read by the server, ids returned, "
+         "payload octets before/after compared with Net/PipelineBuf.v plb_shared_run and judged by the oracle. pipeline_conc: concurrent non-quiescent runs judged "
          "by the oracle only.",
     assumptions=["Go mutex / channel / map-under-lock operations are atomic and sequentially consistent (the LTS steps)",
                  "closeWithErr is modelled as one atomic step",
                  "quiescence of the real code between events is detected by a wrapper around the dialled net.Conn "
                  "(read loop blocked in Read with every emitted byte consumed); 5 s waits for expected returns, "
                  "30 ms settle before the final snapshot",
-                 "schedules inside the Go runtime are sampled (pipeline_conc), not enumerated"],
+                 "schedules inside the Go runtime are sampled (pipeline_conc), not enumerated",
+                 "a payload slice read by several exchanges at once is read untorn (Go memory model); that the Go write is the "
+                 "model's write (private copy) is tested by pipeline_shared, not proved"],
     trusted=["C05: scripted server + conn wrapper in harness/cmd/implrun/c05.go; verif hook "
-             "transport.VerifNewPipelineTransportPreset (copy of NewPipelineTransport that presets nextQid)"],
+             "transport.VerifNewPipelineTransportPreset (copy of NewPipelineTransport that presets nextQid); "
+             "pipeline_shared: wrapper around the dialled net.Conn whose Write waits until every exchange of the burst is "
+             "inside Write (harness/cmd/implrun/c05c.go)"],
     level_note="partial: theorems cover every schedule of the model's atomic actions (addQueueC, write, read, "
                "getQueueC, non-blocking send, select arms, deleteQueueC, close) for any number of exchanges and any "
                "server behaviour; atomicity of the Go mutex/channel primitives and the one-step closeWithErr are "
